@@ -10,6 +10,7 @@ import (
 	"context"
 	"encoding/hex"
 	"fmt"
+	"strings"
 	"testing"
 
 	"github.com/tokenized/logger"
@@ -98,6 +99,12 @@ func c20Judge(kind string, b []byte, note string, rep *verifkit.Report) (*c20Vio
 	flag := func(key, what string) (*c20Violation, bool) {
 		if verifkit.Known(key) {
 			rep.Exclude(key)
+			return nil, true
+		}
+		if strings.HasSuffix(key, "/unknown") || strings.HasSuffix(key, "/unattributed") {
+			// the cause could not be attributed to a function (no usable stack in the crash report or
+			// the heap profile): it may be one of the known dependency findings, so no verdict
+			rep.Label("cause-not-attributed", 1)
 			return nil, true
 		}
 		return &c20Violation{key, what}, true
